@@ -43,6 +43,9 @@ M('C01', 'point-scalar-for-array', 'regions/shapes/point.py',
 M('C01', 'circle-le-radius-squared', 'regions/shapes/circle.py',
   'in_circle = self.center.separation(pixcoord) < self.radius',
   'in_circle = self.center.separation(pixcoord) < self.radius * 1.001')
+M('C01', 'kernel-pnpoly-mod-3', 'regions/_geometry/pnpoly.c', '__pyx_r = __Pyx_mod_long(__pyx_v_result, 2);', '__pyx_r = (__Pyx_mod_long(__pyx_v_result, 3) != 0);')
+M('C02', 'kernel-circle-subsample-offset', 'regions/_geometry/circular_overlap.c', '__pyx_v_x = (__pyx_v_x0 - (0.5 * __pyx_v_dx));', '__pyx_v_x = (__pyx_v_x0 - (0.4 * __pyx_v_dx));')
+M('C03', 'kernel-circle-fastpath-box-too-small', 'regions/_geometry/circular_overlap.c', '__pyx_v_bxmax = (__pyx_v_r + (0.5 * __pyx_v_dx));', '__pyx_v_bxmax = (__pyx_v_r - (0.5 * __pyx_v_dx));')
 M('C01', 'include-truthiness-is-True', 'regions/shapes/rectangle.py',
   "        if self.meta.get('include', True):\n            return in_rect",
   "        if self.meta.get('include', True) is True:\n            return in_rect")
@@ -62,7 +65,7 @@ def load_checks_mutants():
 def make_scratch(mutant):
     d = tempfile.mkdtemp(prefix='vmon-mut-')
     shutil.copytree(os.path.join(REPO, 'regions'), os.path.join(d, 'regions'),
-                    ignore=shutil.ignore_patterns('__pycache__', 'tests', '*.pyc'))
+                    ignore=shutil.ignore_patterns('__pycache__', 'tests', '*.pyc', '*.pyx'))
     if 'patch' in mutant:
         p = subprocess.run(['patch', '-p1', '-s', '-d', d, '-i', mutant['patch']], capture_output=True, text=True)
         if p.returncode:
@@ -76,6 +79,20 @@ def make_scratch(mutant):
         raise RuntimeError(f"mutant {mutant['name']}: pattern not found in {mutant['file']}")
     src = src.replace(mutant['old'], mutant['new'], mutant.get('count', 1))
     open(path, 'w').write(src)
+    if path.endswith('.c'):
+        # kernel mutant: rebuild the extension from the mutated generated C (Cython itself is not available)
+        import glob
+        import sysconfig
+        base = os.path.basename(path)[:-2]
+        so = glob.glob(os.path.join(os.path.dirname(path), base + '.*.so'))
+        inc = subprocess.run(['/venv/bin/python', '-c', 'import sysconfig, numpy; print(sysconfig.get_paths()["include"]); print(numpy.get_include())'],
+                             capture_output=True, text=True).stdout.split()
+        out = so[0] if so else os.path.join(os.path.dirname(path), base + '.cpython-312-x86_64-linux-gnu.so')
+        c = subprocess.run(['gcc', '-O1', '-shared', '-fPIC', '-w', '-DNPY_NO_DEPRECATED_API=NPY_1_7_API_VERSION'] + ['-I' + i for i in inc]
+                           + ['-I' + os.path.dirname(path), path, '-o', out, '-lm'], capture_output=True, text=True)
+        if c.returncode:
+            shutil.rmtree(d, ignore_errors=True)
+            raise RuntimeError(f"mutant {mutant['name']}: C build failed: {c.stderr[-300:]}")
     return d
 
 
